@@ -539,6 +539,9 @@ def _state(o):
 #                 pl-slots-sub      subclass with __slots__ = () of one
 #                 pl-slots-sub-dict subclass WITHOUT __slots__ of one (instances have an empty __dict__)
 #                 pl-slots-add      subclass adding slots
+#                 pl-init-slots     __slots__ class WITHOUT class-level annotations, annotated __init__   (round 4)
+#                 pl-init-vars      the same without __slots__ (fields are read off vars(instance))        (round 4)
+#                 pl-init-slots-sub / pl-init-slots-add    subclass (__slots__ = () / more slots) of one   (round 4)
 #   every flavour direct            written directly (control; with the adversarial first-field values of this stratum)
 #
 # Decided OUTSIDE the quantifier (not generated, not held to the statement):
@@ -557,7 +560,10 @@ DERIVATIONS = {
     "dataclass": ["direct", "dc-sub-plain", "dc-sub-slots", "dc-sub-dec", "dc-sub-add", "dc-sub-override"],
     "typeddict": ["direct", "td-sub-empty", "td-sub-add", "td-mixed", "td-multi", "td-sub-override"],
     "plain": ["direct", "pl-sub-empty", "pl-sub-add", "pl-sub-override", "pl-slots", "pl-slots-sub",
-              "pl-slots-sub-dict", "pl-slots-add"],
+              "pl-slots-sub-dict", "pl-slots-add",
+              # round 4: NO class-level annotation; the hints come from the annotated __init__ (inspection's signature
+              # fallback) and the field iterator falls through to its __slots__ / vars() branches
+              "pl-init-slots", "pl-init-vars", "pl-init-slots-sub", "pl-init-slots-add"],
 }
 UNTYPED_KINDS = ("nt-coll", "nt-coll-sub")
 ALL_KINDS = [(fl, k) for fl, ks in DERIVATIONS.items() for k in ks]
@@ -628,13 +634,15 @@ def _fld(fname, ann, default):
     return f"    {fname}: {ann}" + (f" = {default}" if default is not None else "") + "\n"
 
 
-def _plain(name, base, own, inherited, allf, slots=None, init=True):
+def _plain(name, base, own, inherited, allf, slots=None, init=True, ann=True):
     """source of an attribute class: `own` fields annotated here, `inherited` come from `base`.
-    Fields are (fname, annotation source, default source | None)."""
+    Fields are (fname, annotation source, default source | None).  ann=False: no class-level annotation at all
+    (the annotated __init__ is the only place that says what the attributes are)."""
     out = [f"class {name}{'(' + base + ')' if base else ''}:\n"]
     if slots is not None:
         out.append(f"    __slots__ = {tuple(slots)!r}\n")
-    out += [f"    {f}: {a}\n" for f, a, _ in own]
+    if ann:
+        out += [f"    {f}: {a}\n" for f, a, _ in own]
     if init:
         params = ", ".join(f"{f}: {a}" + (f" = {dv}" if dv is not None else "") for f, a, dv in inherited + own)
         out.append(f"    def __init__(self{', ' if params else ''}{params}):\n")
@@ -752,6 +760,15 @@ def derive_source(src, env):
                 new = _plain(B, None, fs, [], fs, slots=names) + _plain(N, B, [], fs, fs, init=False)
             elif kind == "pl-slots-add":
                 new = _plain(B, None, fs[:k], [], fs, slots=names[:k]) + _plain(N, B, fs[k:], fs[:k], fs, slots=names[k:])
+            elif kind == "pl-init-slots":
+                new = _plain(N, None, fs, [], fs, slots=names, ann=False)
+            elif kind == "pl-init-vars":
+                new = _plain(N, None, fs, [], fs, ann=False)
+            elif kind == "pl-init-slots-sub":
+                new = _plain(B, None, fs, [], fs, slots=names, ann=False) + _plain(N, B, [], fs, fs, slots=(), init=False)
+            elif kind == "pl-init-slots-add":
+                new = (_plain(B, None, fs[:k], [], fs, slots=names[:k], ann=False)
+                       + _plain(N, B, fs[k:], fs[:k], fs, slots=names[k:], ann=False))
             else:
                 raise ValueError(kind)
             if call:                  # (universe gives every third class callable instances)
@@ -887,12 +904,15 @@ CAT_CLASSES = [                                       # first fields of every fa
     [("c", _B, None), ("b", _S, None), ("a", _I, "0")],
     [("a", _A, None), ("b", _A, None)],
     [("kids", ("seq", "KList", "list[{}]", ("name", 0)), None), ("name", _S, None)],
+    [("a", _S, "'ab'"), ("b", _I, "3")],              # every field has a default: losing the fields is SILENT (round 4)
 ]
-CAT_ROOTS = [("name", i) for i in range(7)] + [
+CAT_ROOTS = [("name", i) for i in range(8)] + [
     ("seq", "KList", "list[{}]", ("name", 0)),
     ("map", "KDict", "dict[{}, {}]", _S, ("name", 1)),
     ("tuple", "tuple[{}]", [("name", 0), ("name", 1)]),
     ("union", "Optional", [("name", 1), ("none",)]),
+    ("seq", "KList", "list[{}]", ("name", 7)),
+    ("tuple", "tuple[{}]", [("name", 7), ("name", 7), ("name", 0)]),
 ]
 CAT_VALUES = {
     0: [O(0, "ab", 1), O(0, "abc", 1), O(0, "[]", 0), O(0, "1", 2), O(0, "null", 3), O(0, "ba")],
@@ -903,10 +923,14 @@ CAT_VALUES = {
     5: [O(5, "ab", 1), O(5, ("a", 1), ("b", 2)), O(5, ["b", 2], ["a", 1]), O(5, [1, 2], 3), O(5, {"a": 1, "b": 2}, None),
         O(5, ("ab", "ba"), "x"), O(5, [("a", 1), ("b", 2)], 0), O(5, 5, "ab")],
     6: [O(6, [O(0, "ab", 1), O(0, "cd", 2)], "n"), O(6, [O(0, "ab", 1)], "ab"), O(6, [], "x")],
-    7: [[O(0, "xy", 7), O(0, "abc", 8)], [O(0, "ab", 1), O(0, "cd", 2)]],
-    8: [{"k": O(1, "ab", "ba")}],
-    9: [(O(0, "ab", 1), O(1, "ab", "cd"))],
-    10: [O(1, "ab", "ba"), None],
+    7: [O(7, "cd", 1), O(7), O(7, "null")],
+    # containers: several instances of ONE class in one call (whatever is kept per class is used more than once)
+    8: [[O(0, "xy", 7), O(0, "abc", 8)], [O(0, "ab", 1), O(0, "cd", 2), O(0, "1", 3)]],
+    9: [{"k": O(1, "ab", "ba")}, {"ab": O(1, "cd", "x"), "cd": O(1, "null", "y")}],
+    10: [(O(0, "ab", 1), O(1, "ab", "cd"))],
+    11: [O(1, "ab", "ba"), None],
+    12: [[O(7, "cd", 1), O(7, "ef", 2), O(7, "12")], [O(7), O(7, "x", 0)]],
+    13: [(O(7, "cd", 1), O(7, "ef", 2), O(0, "gh", 4))],
 }
 
 
